@@ -156,3 +156,47 @@ def synthetic_glyf_font(rng, nglyphs=8, max_depth=3, upem=1000):
     fb.setupOS2()
     fb.setupPost()
     return fb.font
+
+
+def device_gpos_font():
+    """A generated TrueType font whose GPOS has long record arrays (> 8 entries, the threshold at which the library
+    reads arrays lazily when lazy=True) whose records carry OFFSETS to further tables: PairValueRecords, Class1Records
+    and SinglePos values with Device tables, MarkRecords / BaseRecords with anchors that have Device tables."""
+    from fontTools.feaLib.builder import addOpenTypeFeaturesFromString
+    from fontTools.fontBuilder import FontBuilder
+    from fontTools.ttLib.tables._g_l_y_f import Glyph
+
+    bases = ["b%02d" % i for i in range(14)]
+    marks = ["m%02d" % i for i in range(12)]
+    names = [".notdef"] + bases + marks
+    fb = FontBuilder(1000, isTTF=True)
+    fb.setupGlyphOrder(names)
+    fb.setupCharacterMap({0xE000 + i: n for i, n in enumerate(names) if i})
+    fb.setupGlyf({n: Glyph() for n in names})
+    fb.setupHorizontalMetrics({n: (500 + 7 * i, 0) for i, n in enumerate(names)})
+    fb.setupHorizontalHeader(ascent=800, descent=-200)
+    fb.setupNameTable({"familyName": "VerifDevice", "styleName": "Regular"})
+    fb.setupOS2()
+    fb.setupPost()
+    fea = ["table GDEF { GlyphClassDef [%s], , [%s], ; } GDEF;" % (" ".join(bases), " ".join(marks))]
+    fea.append("feature kern {")
+    for i in range(1, 13):  # 12 specific pairs on the same first glyph: one PairSet with 12 PairValueRecords
+        fea.append("  pos b00 b%02d <%d 0 %d 0 <device 11 %d, 12 %d> <device NULL> <device 11 %d> <device NULL>>;" % (i, -10 * i, -10 * i, -(i % 7) - 1, i % 5 + 1, i % 3 + 1))
+    fea.append("} kern;")
+    fea.append("feature sinf {")
+    for i in range(11):  # SinglePos format 2: 11 different values with devices
+        fea.append("  pos b%02d <%d 0 %d 0 <device 11 %d> <device NULL> <device 12 %d> <device NULL>>;" % (i + 1, i + 1, 2 * i + 1, i % 4 + 1, -(i % 6) - 1))
+    fea.append("} sinf;")
+    for k, m in enumerate(marks):
+        fea.append("markClass %s <anchor %d %d <device 11 %d> <device NULL>> @MC%d;" % (m, 100 + k, 300 + 2 * k, k % 5 + 1, k % 3))
+    fea.append("feature mark {")
+    for k, b in enumerate(bases):
+        fea.append("  pos base %s <anchor %d 500 <device 12 %d> <device 11 %d>> mark @MC0 <anchor %d 510> mark @MC1 <anchor %d 520 <device 11 -1> <device NULL>> mark @MC2;" % (b, 200 + k, k % 7 - 3 or 1, k % 4 + 1, 210 + k, 220 + k))
+    fea.append("} mark;")
+    addOpenTypeFeaturesFromString(fb.font, "\n".join(fea))
+    import io
+
+    buf = io.BytesIO()
+    fb.font.recalcTimestamp = False
+    fb.save(buf)
+    return buf.getvalue()
